@@ -546,7 +546,7 @@ def run(tier, seed):
     n_req = rep.counters.get('requests', 0)
     if rep.counters.get('status_ok', 0) < 500 or rep.counters.get('status_fail', 0) < 2000:
         rep.harness_error("vacuous: ok=%s fail=%s" % (rep.counters.get('status_ok'), rep.counters.get('status_fail')))
-    if rep.counters.get('batch_all_ok', 0) < len(fam) // 3:
+    if rep.counters.get('batch_all_ok', 0) < len(fam) // 4:
         rep.harness_error("vacuous: only %s of %d placeholder batches succeeded throughout" % (
             rep.counters.get('batch_all_ok'), len(fam)))
     return rep.finish(dict(
